@@ -3,7 +3,7 @@ from . import l1
 PROP = "C07"
 LEANCHECK_MODULES = ["Ivy.L1.Machine", "Ivy.L1.Exec", "Ivy.Mon.C07", "Ivy.L1.ProofsC07", "Ivy.Props.C07"]
 FAMILIES = ['lifecycle', 'mix', 'deadline']
-MONS = ['C07', 'C07spin', 'C04', 'C06']   # 'blocks only when nothing is due' = no oversleep (C04) + no blocking wait with a task pending (C06)
+MONS = ['C07', 'C07spin', 'C07idle', 'C04', 'C06']   # 'blocks only when nothing is due' = no oversleep (C04) + no blocking wait with a task pending (C06)
 SANS = []
 RULE = ("scenario families ['lifecycle', 'mix'] (see vlib/loopgen.py) rotating over the four poll methods and the fault configurations; every log is "
         "replayed through the Lean machine (every library record must be predicted) and through the Lean monitor(s) ['C07', 'C07spin']; sanitizer "
